@@ -61,9 +61,49 @@ def _lift(v):
     return _F(v)
 
 
+def _shape(v):
+    if isinstance(v, tuple) and not (len(v) >= 1 and v[0] == "__obj__"):
+        if len(v) and all(isinstance(x, tuple) for x in v):
+            n = {len(x) for x in v}
+            if len(n) == 1:
+                return (len(v), n.pop())
+            raise Unsupported("ragged array")
+        return (len(v),)
+    return ()
+
+
+def _to2(v, shp):
+    """view any operand as a 2-D nested tuple"""
+    if shp == ():
+        return ((v,),)
+    if len(shp) == 1:
+        return (tuple(v),)
+    return v
+
+
+def _bcast(f, a, b):
+    sa, sb = _shape(a), _shape(b)
+    if len(sa) <= 1 and len(sb) <= 1:
+        return None
+    A, B = _to2(a, sa), _to2(b, sb)
+    ra, ca, rb, cb = len(A), len(A[0]), len(B), len(B[0])
+    if not ((ra == rb or ra == 1 or rb == 1) and (ca == cb or ca == 1 or cb == 1)):
+        raise Unsupported("shapes do not broadcast")
+    R_, C_ = max(ra, rb), max(ca, cb)
+    return tuple(tuple(f(A[i if ra > 1 else 0][j if ca > 1 else 0], B[i if rb > 1 else 0][j if cb > 1 else 0]) for j in range(C_)) for i in range(R_))
+
+
 def _bin(op, a, b):
+    if isinstance(a, tuple) or isinstance(b, tuple):
+        r2 = _bcast(lambda x, y: _bin(op, x, y), a, b)
+        if r2 is not None:
+            return r2
     if isinstance(a, tuple) and isinstance(b, tuple):
         if len(a) != len(b):
+            if len(a) == 1:
+                return tuple(_bin(op, a[0], y) for y in b)
+            if len(b) == 1:
+                return tuple(_bin(op, x, b[0]) for x in a)
             raise Unsupported("shape mismatch")
         return tuple(_bin(op, x, y) for x, y in zip(a, b))
     if isinstance(a, tuple):
@@ -108,6 +148,9 @@ class UnitOf(tuple):
 
 def _cmp(op, a, b):
     if isinstance(a, tuple) or isinstance(b, tuple):
+        r2 = _bcast(lambda x, y: _cmp(op, x, y), a, b)
+        if r2 is not None:
+            return r2
         if isinstance(a, tuple) and isinstance(b, tuple):
             return tuple(_cmp(op, x, y) for x, y in zip(a, b))
         if isinstance(a, tuple):
@@ -330,6 +373,24 @@ class VecEval:
                 if isinstance(base, tuple):
                     return tuple(base[slice(*(int(x) if x is not None else None for x in (lo, hi, st)))])
                 raise Unsupported("slice")
+            if isinstance(e.slice, ast.Tuple) and len(e.slice.elts) == 2 and isinstance(base, tuple):
+                a0, a1 = e.slice.elts
+                full = lambda x: isinstance(x, ast.Slice) and x.lower is None and x.upper is None and x.step is None  # noqa: E731
+                none = lambda x: isinstance(x, ast.Constant) and x.value is None or (isinstance(x, ast.Attribute) and x.attr == "newaxis")  # noqa: E731
+                shp = _shape(base)
+                if len(shp) == 2 and full(a0) and not none(a1):
+                    k = self.ev(a1)
+                    if isinstance(k, Fraction) and k.denominator == 1:
+                        return tuple(row[int(k)] for row in base)
+                if len(shp) == 2 and full(a1) and not none(a0):
+                    k = self.ev(a0)
+                    if isinstance(k, Fraction) and k.denominator == 1:
+                        return base[int(k)]
+                if len(shp) == 1 and full(a0) and none(a1):
+                    return tuple((x,) for x in base)      # column
+                if len(shp) == 1 and none(a0) and full(a1):
+                    return (tuple(base),)                  # row
+                raise Unsupported("2-d subscript")
             i = self.ev(e.slice)
             if isinstance(base, tuple) and isinstance(i, (int, Fraction)) and not isinstance(i, bool) and Fraction(i).denominator == 1:
                 k = int(i)
@@ -358,6 +419,18 @@ class VecEval:
             raise Unsupported(f"attribute {e.attr}")
         if isinstance(e, ast.Call):
             return self.call(e)
+        if isinstance(e, (ast.ListComp, ast.GeneratorExp)) and len(e.generators) == 1:
+            g = e.generators[0]
+            seq = self.ev(g.iter)
+            if not isinstance(seq, tuple):
+                raise Unsupported("comprehension over a non-sequence")
+            out, saved = [], dict(self.env)
+            for x in seq:
+                self.assign(g.target, x)
+                if all(self.truth(c) for c in g.ifs):
+                    out.append(self.ev(e.elt))
+            self.env = saved
+            return tuple(out)
         raise Unsupported(f"expression {type(e).__name__}")
 
     def call(self, e: ast.Call):
@@ -377,6 +450,8 @@ class VecEval:
         kw = {k.arg: k.value for k in e.keywords if k.arg}
         if last in self.identity_calls and len(e.args) == 1:
             return self.ev(e.args[0])
+        if last in self.identity_calls and not e.args and len(e.keywords) == 1:
+            return self.ev(e.keywords[0].value)
         if last in self.opaque_calls:
             return ("__obj__", last) + tuple(self.ev(a) for a in e.args)
         if last in self.methods and self.depth < 3 and (isinstance(e.func, ast.Name) or (isinstance(e.func, ast.Attribute) and isinstance(e.func.value, ast.Name)
@@ -415,7 +490,7 @@ class VecEval:
         if recv is not None:
             args = [recv] + args
         a0 = args[0] if args else None
-        if last in ("asarray", "array", "asanyarray", "copy", "astype", "float", "float64", "float32", "ravel", "flatten", "squeeze", "ascontiguousarray", "tolist", "tuple", "list"):
+        if last in ("asarray", "array", "asanyarray", "copy", "astype", "float", "float64", "float32", "ravel", "flatten", "squeeze", "ascontiguousarray", "tolist", "tuple", "list", "int64"):
             if isinstance(a0, (tuple, Fraction, bool)):
                 return a0
             raise Unsupported(last)
@@ -451,6 +526,8 @@ class VecEval:
             raise Unsupported("abs")
         if last == "sign":
             sg = lambda x: Fraction((x > 0) - (x < 0))
+            if isinstance(a0, tuple) and len(_shape(a0)) == 2:
+                return tuple(tuple(sg(x) for x in row) for row in a0)
             return tuple(sg(x) for x in a0) if is_vec(a0) else sg(a0)
         if last in ("argmin", "argmax") and is_vec(a0) and len(args) == 1:
             pick = min if last == "argmin" else max
@@ -495,6 +572,16 @@ class VecEval:
             return any(a0)
         if last in ("all", "any") and isinstance(a0, bool):
             return a0
+        if last in ("count_nonzero", "sum") and isinstance(a0, tuple) and len(_shape(a0)) == 2:
+            axis = self.ev(kw["axis"]) if "axis" in kw else (args[1] if len(args) > 1 else None)
+            cnt = (lambda xs: Fraction(sum(1 for x in xs if x))) if last == "count_nonzero" else (lambda xs: sum(xs, Fraction(0)))
+            if axis is None:
+                return cnt([x for row in a0 for x in row])
+            if int(axis) in (1, -1):
+                return tuple(cnt(row) for row in a0)
+            if int(axis) == 0:
+                return tuple(cnt([row[j] for row in a0]) for j in range(len(a0[0])))
+            raise Unsupported("axis")
         if last in ("count_nonzero",) and isinstance(a0, tuple):
             return Fraction(sum(1 for x in a0 if x))
         if last in ("flatnonzero",) and isinstance(a0, tuple):
@@ -525,6 +612,10 @@ class VecEval:
 
 
 def _bin_bool(a, b, f):
+    if isinstance(a, tuple) or isinstance(b, tuple):
+        r2 = _bcast(f, a, b)
+        if r2 is not None:
+            return r2
     if isinstance(a, tuple) and isinstance(b, tuple):
         return tuple(f(x, y) for x, y in zip(a, b))
     if isinstance(a, tuple):
